@@ -249,12 +249,15 @@ class P(Prop):
         (M, "TV.C20.mapOnTrackT_ignores_state", "the result of mapOnTrack(track, track) depends on the positions of the two tracks only, not on their analytical features / time stamps"),
         (M, "TV.C20.mapOnTrackT_empty", "a track of queries without observation: AnalyticalFeatureError (createAnalyticalFeature on the empty output)"),
         (M, "TV.C20.mapChain_calls", "chained snapping mapOnTrack(mapOnTrack(q, ref0), ref1) ...: output k is mapOnTrack(output k-1, ref k) — its dist / edge are those of the projection of the previous output's positions, not the dist / edge that output carries"),
+        (M, "TV.C20.vertical_zerodiv_iff", "vertical segment: ZeroDivisionError exactly when the query has the segment's abscissa and a = y2 - y1 lies between y1 and y2 (the harness predicate zerodiv_vertical); an end point otherwise"),
+        (M, "TV.C20.proj_polyline_vertical_case", "any polyline, kept vertical segments included: segment i is kept and EITHER exactly vertical, the returned point being one of its END points, OR non-vertical with the answer right once the kept vertical segments are left out (on segment i, d = |q - p|, d <= every point of every kept non-vertical segment): the model's side of the class vertical-segment"),
         (M, "TV.C20.mapOnTrackT_nearest_partial", "the property at full strength through the track form, tracks with any state: reference without kept vertical segment, at least one query -> returns; for every query the output's point lies on segment edge[j], dist[j] = distance to it, minimal over every point of every segment"),
     ]
     partial = ["proj_segment_min_partial / proj_segment_nearest_partial / proj_polyline_min_partial / proj_polyline_nearest_partial: the property is proved at full "
                "strength (point on the carrying segment, index, d = |q - p|, d minimal over every point of every segment, skipped zero-length segments included) "
                "for every NON-vertical orientation; for vertical segments the statement is false of the code (D16, pinned by test_geometry.py::testProjSegment; "
-               "proj_segment_min_fails_on_vertical, vertical_as_coded): there only the end points are covered. A skipped segment of non-zero length < 1e-16 is "
+               "proj_segment_min_fails_on_vertical, vertical_as_coded, vertical_zerodiv_iff): there only the end points are covered; proj_polyline_vertical_case states what "
+               "an answer on a polyline WITH kept vertical segments still guarantees (reported segment vertical -> one of its end points; else right w.r.t. the non-vertical ones). A skipped segment of non-zero length < 1e-16 is "
                "covered up to 1e-16 when it touches a kept segment (proj_polyline_skipped_partial); a run of several consecutive skipped segments is not "
                "stated. mapOnTrackT_nearest_partial carries the same statement through the track form (track objects with features / time stamps, "
                "chained calls by mapChain_calls). Exact arithmetic: IEEE rounding (D17, horizontal segments) is outside the theorems and sampled by the transfer check; "
@@ -289,9 +292,14 @@ class P(Prop):
             "distance from the query to every non-skipped segment >= 2**1024: proj_polyligne then keeps nothing against its sentinel 1e400 and raises "
             "UnboundLocalError). Sentinel stream (1 case in 41, appended): proj_polyligne / its two-sequence forms with a query coordinate inf / -inf / "
             "nan / +-1e200 / +-1e308 / +-max double, or vertices at +-1e308, kept only when out of range in that exact sense; checked against the "
-            "sentinel-faithful model bit for bit, not constrained by the oracle. Failing answers are excused only inside the listed classes: vertical-segment (D16, also its numpy form inf/nan and segments "
-            "that are vertical up to rounding, where the foot built through (0, -c / b) loses its ordinate) and horizontal-segment-fp (D17, also segments "
-            "horizontal up to 64 ulps).")
+            "sentinel-faithful model bit for bit, not constrained by the oracle. Failing answers are excused only inside the listed classes: vertical-segment (D16) and horizontal-segment-fp (D17, also segments "
+            "horizontal up to 64 ulps). The class vertical-segment is recognised from the CASE, not from one failure pattern: the query is projected on a "
+            "polyline with a KEPT EXACTLY VERTICAL segment (x1 == x2: b == 0, where projection_droite's special case is wrong and pinned by the test suite) and "
+            "the failing answer (d, p, i) is explained by proj_segment answering anything at all on those segments, everything else being right: i is such a "
+            "segment, or i is not and the answer is right once they are left out of the minimum (p on segment i, d = |q - p|, d minimal over the other "
+            "segments); an exception raised while such a polyline is projected on belongs to the class too (proj_segment is called on every kept segment "
+            "for every query). An index outside 0..n-2, and any failure on a polyline without kept vertical segment, are reported. Also in that class: "
+            "segments vertical up to rounding, where the foot built through (0, -c / b) loses its ordinate (near-vertical finding, recognised by check_fragile).")
     trusted = ["math.sqrt / Float.sqrt correctly rounded; the sentinel 1e400 is the double +inf (driver: 1.0 / 0.0), compared `dist < inf` as in the code "
                "(sentinel-faithful forms projPolyligneS / projPolyligneXYS, tied exactly by tie_proj_polyligne_exact); the theorems of Props/C20 are about the "
                "'no current minimum' forms, equal to them whenever every distance met is < inf (Lemmas/ProjSentinel.lean)"]
